@@ -1,12 +1,13 @@
+\* staged uploads of 3 goroutines: every overlap (also three calls in flight at once), 3 uploads
 SPECIFICATION Spec
 CONSTANTS
     Threads = {1, 2, 3}
-    MaxUploads = 5
-    MaxClock = 3
+    MaxUploads = 3
+    MaxClock = 0
     Design = "random"
     Vias = {"gen"}
-    Stations = {}
-    Encs = {}
+    Stations = {"minted", "assembled", "arrived", "stored", "presign"}
+    Encs = {"none", "zstd"}
     Shared = {}
     Mode = "mc"
     Depth = 0
